@@ -50,7 +50,7 @@ def check(pid, tier):
         rep = runner.Report(pid, tier, seed)
         ulist = []
         if P.get("modules"):
-            ulist = runner.run_deductive(rep, P["modules"])
+            ulist = runner.run_deductive(rep, P["modules"], only=P.get("only_units"))
             runner.vacuity_checks(rep, ulist)
         for hook in P.get("extra", []):
             hook(rep, tier, seed)
